@@ -225,6 +225,16 @@ def judge_loss(case, obs):
         if present_at_end and not failed and obs["_connected_at_end"] is False:
             out.append(("C17:%s:never-reconnects" % drv, "device back since t=%.3f, 'failed' never reported, but the driver is still "
                         "disconnected at t=%.1f; status log %r" % (restores[-1], obs["t_end"], obs["status_log"][-4:])))
+    # ---- a power-supply switch that returned normally has reached the gateway (with exceptions off it is repeated after the
+    #      reconnection like any command, not dropped)
+    for on in (True, False):
+        asked = sum(1 for cspec, rec in zip(case["callers"], obs["callers"]) if rec["status"] == "ok"
+                    for c in cspec["cmds"] if c["k"] == "power" and bool(c.get("on", True)) is on)
+        seen_ = sum(1 for w in obs.get("wire_all", []) if w["kind"] == "power" and bool(w.get("on")) is on)
+        if asked > seen_:
+            out.append(("C17:%s:power-supply-switch-lost" % drv, "%d power_supply(%s) calls returned normally, the gateway received "
+                        "%d such packets; events %r" % (asked, on, seen_, [(e["t"], e["what"]) for e in ev])))
+            break
     # ---- while a connection is up nobody opens the device node a second time (a retry timer left over from the outage,
     #      a connect() by hand on a connected driver)
     if obs["connected"]:
